@@ -2,7 +2,7 @@
 # tools/run_all.sh [tier] : run every check once; prints one status line per property
 tier=${1:-quick}
 rc_all=0
-for i in 01 02 03 04 05 06 07 08 09 10 11 12 13 14 15 16 17 18 19 20; do
+for i in ${IDS:-01 02 03 04 05 06 07 08 09 10 11 12 13 14 15 16 17 18 19 20}; do
   s=$(date +%s.%N)
   out=$(${A5VERIF_ROOT:-/verif}/check C$i $tier 2>&1); rc=$?
   e=$(date +%s.%N)
